@@ -138,8 +138,10 @@ def main():
     chk.assumptions = ["priorities are decimal strings (non-numeric keys are outside the property)",
                        "subject-priority model: names and domains do not contain '::' (get_name_with_domain is then injective)",
                        "the model was loaded once (priority_index is only set by load_policy in this code base)"]
-    chk.trusted = ["hand-written models coq/theories/{Policy,RoleGraph,Mgmt,Subject}.v tied by the differential history correspondence"]
-    chk.build(oracle_name="Mgmt")
+    chk.trusted = ["hand-written models coq/theories/{Policy,RoleGraph,Mgmt,Subject}.v tied by the differential history correspondence",
+                   "translator translators/policy.py + interpreter coq/theories/PolLang.v (see C06): the priority insertion of add_policy is "
+                   "proved equal to Policy.insert_by_priority of the regenerated source (C07_source_add_inserts_by_priority)"]
+    chk.build(translators=["policy"], oracle_name="Mgmt")
     spath, slog = build_oracle("C07")                    # second oracle: coq/theories/Subject.v
     soracle = Oracle(spath) if spath else None
     if slog:
